@@ -214,6 +214,17 @@ theorem C01_float_implies_exact_slack (a b : Int) (rel abs : Nat)
     simpa [maxInf, leInf] using h
   exact slack_core _ _ _ _ _ (2 ^ UNIT) (rnd_lower_f64 _) (rnd_upper_f64 _) h2
 
+/-- **C01 (other float formats, Python-float tolerances).**  For a format other than binary64
+    (float32 / float16 arrays) numpy keeps the arithmetic in the array's format and first rounds
+    the Python-float tolerances to it: the scalar kernel is the documented formula evaluated in
+    that format with the rounded tolerances.  (`docFormula` is reflexive, symmetric and monotone
+    for every format — `docFormula_refl/_symm/_mono`.) -/
+theorem C01_weak_kernel (F : Fmt) (hF : F ≠ f64) (a b : Int) (rel abs r t : Nat)
+    (hr : rndMag F rel 0 = some r) (ht : rndMag F abs 0 = some t) :
+    fuzzyEq1 F a b rel true abs true = docFormula F a b r t := by
+  unfold fuzzyEq1 threshold docFormula
+  simp [hF, hr, ht]
+
 /-- **C01 (tie to the source text).**  The body of `_numpy_utils.fuzzy_equal` as *translated from
     the current source text on this run* (`Fc.Gen.fuzzyEqualBody`, FcGen/Tables.lean), evaluated
     with binary64 lane semantics on any finite operands and tolerances, is the documented formula —
